@@ -52,6 +52,20 @@ def observe(run, e, X0):
     bad = c03.same(A @ X, cls, e["imgA"], type(X0), X0.shape)
     if bad:
         return ("image:" + bad[0], bad[1])
+
+    def post_check():
+        # the observations are read-only: the rescaled object must still be the same object afterwards
+        b = c03.same(X, cls, o, type(X0), X0.shape)
+        if b:
+            return ("object_moved_by_queries:" + b[0], b[1])
+        if cls == "tangent":
+            ang = float(X.angle(X))
+            if not abs(ang) <= 1e-6:
+                return ("angle_with_itself_after_queries", "%r" % ang)
+            nb = c03.same(X.normalized(), cls, o, type(X0), X0.shape)
+            if nb:
+                return ("normalized_after_queries:" + nb[0], nb[1])
+        return None
     if cls == "point" and "coords" in obs:
         for m, cc in obs["coords"].items():
             got = np.asarray(X.coords(m), float)
@@ -68,8 +82,14 @@ def observe(run, e, X0):
         p, q = X.get_end_pair(as_points=True)
         d = float(p.distance(q))
         want = math.sqrt(obs["coshsq"][0] / obs["coshsq"][1])
-        if not abs(math.cosh(d) - want) <= 1e-9 * want:
-            return ("distance", "cosh %r vs %r" % (math.cosh(d), want))
+        # compare d itself for nearby points (cosh d - 1 ~ d^2/2 hides errors of order d)
+        d_want = math.acosh(max(want, 1.0))
+        if not (abs(math.cosh(d) - want) <= 1e-9 * want and abs(d - d_want) <= 1e-6 * max(1.0, d_want) + 1e-7):
+            return ("distance", "d %r (cosh %r) vs d %r (cosh %r)" % (d, math.cosh(d), d_want, want))
+        if o["rows"][0] == o["rows"][1]:
+            if not d <= 1e-6:
+                return ("distance_of_equal_points", "d = %r" % d)
+            return post_check()
         t = p.unit_tangent_towards(q)
         spec_t = dict(cls="tangent", rows=[o["rows"][0]], vec=obs["towards"])
         bad = c03.same(t, "tangent", spec_t, H.TangentVector, ())
@@ -114,7 +134,7 @@ def observe(run, e, X0):
                 continue
             if not (np.allclose(c0, c1, rtol=1e-6, atol=2e-7) and np.allclose(r0, r1, rtol=1e-6)):
                 return ("horosphere.sphere_parameters:%s" % model, "scaled %r vs unscaled %r" % ((c1, r1), (c0, r0)))
-    return None
+    return post_check()
 
 
 def rescale(run):
